@@ -88,6 +88,20 @@ def content_same(old, s):
     return both(*[eq(s.fields[k], old.fields[k]) for k in CONTENT])
 
 
+_DISPATCHED = ("get_text", "get_line_translation", "_update_cache_translation", "layout", "rows", "pack", "_invalidate",
+               "set_align_mode", "set_wrap_mode")
+
+
+def plain_text(s):
+    """The receiver dispatches the methods these bodies call on `self` to Text's own definitions (Text itself,
+    SelectableIcon ...).  Edit overrides get_text and get_line_translation: Text.rows / pack / render run on an Edit are
+    other computations, and these contracts must not be used for them (a call-pre obligation at such a call site fails)."""
+    import inspect
+
+    cls = getattr(s, "cls", None)
+    return isinstance(cls, type) and issubclass(cls, _text.Text) and all(inspect.getattr_static(cls, n) is inspect.getattr_static(_text.Text, n) for n in _DISPATCHED)
+
+
 def _ta_ok(s, ta):
     """`ta`, when given, is the widget's own (text, attributes) pair -- what render / pack pass."""
     if is_none(ta):
@@ -106,7 +120,7 @@ class text_glt:
     modifies = ("_cache_maxcol", "_cache_translation")
 
     def requires(s, a):
-        return both(0 <= a.maxcol, a.maxcol < DIMMAX, _ta_ok(s, a.ta))
+        return both(plain_text(s), 0 <= a.maxcol, a.maxcol < DIMMAX, _ta_ok(s, a.ta))
 
     def ensures(old, s, a, result):
         yield "the-layouts-answer-cached-or-not", eq(result, layout_of(old, a.maxcol))
@@ -126,7 +140,7 @@ class text_rows:
     modifies = ("_cache_maxcol", "_cache_translation")
 
     def requires(s, a):
-        return size_ok(a.size)
+        return both(plain_text(s), size_ok(a.size))
 
     def ensures(old, s, a, result):
         yield "one-row-per-layout-line", result == trans_len(layout_of(old, a.size[0]))
@@ -245,7 +259,7 @@ class text_pack:
     modifies = ("_cache_maxcol", "_cache_translation")
 
     def requires(s, a):
-        return True if _no_size(a.size) else size_ok(a.size)
+        return both(plain_text(s), True if _no_size(a.size) else size_ok(a.size))
 
     def ensures(old, s, a, result):
         yield from _pack_clauses(old, s, a, result, callee=False)
@@ -319,7 +333,7 @@ class text_render:
     modifies = ("_cache_maxcol", "_cache_translation")
 
     def requires(s, a):
-        return size_ok(a.size)
+        return both(plain_text(s), size_ok(a.size))
 
     def ensures(old, s, a, r):
         if len(a.size) == 1:
@@ -359,10 +373,11 @@ def _unchanged(old, s):
     return both(content_same(old, s), opt_eq(s._cache_maxcol, old._cache_maxcol), eq(s._cache_translation, old._cache_translation))
 
 
-@contract(TX + "Text._invalidate", property="C01", replayable=False)
+@contract(TX + "Text._invalidate", property="C01", alias="cache-invariant", replayable=False)
 class text_invalidate:
     """Forgets the cached translation (and the cached canvases: Widget._invalidate, C06).  Called by every mutator after the
-    content changed, i.e. while the invariant does not hold: it establishes it."""
+    content changed, i.e. while the invariant does not hold: it establishes it.
+    (An alias: the mutators below -- and Edit's, C10 -- inline Text._invalidate, as before.)"""
     self_shape = TEXT_P
     params = {}
     invariant = staticmethod(text_inv)
@@ -375,13 +390,19 @@ class text_invalidate:
         yield "content-untouched", content_same(old, s)
 
 
-@contract(TX + "Text.set_text", property="C01", replayable=False, contract_overrides={"urwid/util.py:decompose_tagmarkup": decompose_opaque})
+INV_INL = (TX + "Text._invalidate",)
+
+
+@contract(TX + "Text.set_text", property="C01", replayable=False, inline=INV_INL, contract_overrides={"urwid/util.py:decompose_tagmarkup": decompose_opaque})
 class text_set_text:
     self_shape = TEXT_P
     params = dict(markup=Opaque("Markup"))
     invariant = staticmethod(text_inv)
     raises = (TagMarkupException,)
     modifies = ("_text", "_attrib", "_cache_maxcol")
+
+    def requires(s, a):
+        return plain_text(s)
 
     def ensures(old, s, a, result):
         yield "nothing-cached-for-the-old-text", is_none(s._cache_maxcol)
@@ -392,7 +413,7 @@ class text_set_text:
 
 
 def _set_mode(method, field, query, other):
-    @contract(TX + "Text." + method, property="C01", inline=(TX + "Text.layout",), replayable=False)
+    @contract(TX + "Text." + method, property="C01", inline=(TX + "Text.layout",) + INV_INL, replayable=False)
     class _m:
         self_shape = TEXT_P
         params = dict(mode=MODE)
@@ -402,6 +423,9 @@ def _set_mode(method, field, query, other):
         establishes_invariant = True
         raises = (TextError,)
         modifies = (field, "_cache_maxcol")
+
+        def requires(s, a):
+            return plain_text(s)
 
         def ensures(old, s, a, result):
             L = PROTOCOLS["Layout"]
@@ -436,6 +460,9 @@ class text_set_layout:
     params = dict(align=MODE, wrap=MODE, layout=LAYOUT)
     raises = (TextError,)
     modifies = ("_layout", "_align_mode", "_wrap_mode", "_cache_maxcol")
+
+    def requires(s, a):
+        return plain_text(s)
 
     def ensures(old, s, a, result):
         yield "stored-nothing-cached", both(eq(s._layout, a.layout), eq(s._align_mode, a.align), eq(s._wrap_mode, a.wrap), is_none(s._cache_maxcol))
